@@ -259,6 +259,9 @@ def check(col: Collector, tier: str):
     from sa.props._tr import import_obligations
     import_obligations(col, "C13.R12", "c03", lambda o: o.detail == "branch-binds-name-k-to-variable-k",
                        "a branch booked with an explicit leaf description stores the value in that type, whatever the C++ variable's type is")
+    import_obligations(col, "C13.R12", "c07", lambda o: o.rule == "C07.R4" and o.detail == "unfinished-translation-is-reset-before-the-next",
+                       "a reset that runs after this query's metadata was read wipes the method types it just declared: an int method falls back to "
+                       "double and `/` loses its cast")
     import_obligations(col, "C13.R12", "c10", lambda o: o.rule == "C10.R3" and o.detail in ("add-and-lookup-agree",),
                        "the cast of int/int division and the result's column type are chosen from the method's recorded return type: the LAST declaration must win")
     # ------------------------------------------------------------ R11 a conditional yields its arm's value (cursor discipline shared with C04)
